@@ -301,8 +301,8 @@ impl<F> Slot<F> {
         if let Some(b) = self.fut.take() {
             let raw: *mut F = Box::into_raw(unsafe { Pin::into_inner_unchecked(b) });
             run.call(what, || unsafe { std::ptr::drop_in_place(raw) });
-            // free the memory without running the destructor again
-            drop(unsafe { Box::from_raw(raw as *mut std::mem::MaybeUninit<F>) });
+            // keep the memory mapped until the history ends (see tls::bury)
+            tls::bury(raw as *mut u8, std::alloc::Layout::new::<F>());
         }
         self.clear();
     }
@@ -436,6 +436,7 @@ pub fn check_list_queues(
     views: &[SlotView],
     run: &mut Run,
     order_out: &mut Vec<(u8, u8, u8, u8, u64)>,
+    lost_wakeup_prop: &'static str,
 ) {
     order_out.clear();
     for &q in queues {
@@ -506,8 +507,9 @@ pub fn check_list_queues(
         // (c) every pending slot without an unconsumed wake is linked
         for v in views.iter().filter(|v| v.queue == q) {
             if v.pending && !v.woken && !seen.contains(&v.idx) {
-                run.violate(
+                run.violate2(
                     "C01",
+                    lost_wakeup_prop,
                     "waiting-but-not-linked",
                     format!("queue {}: slot {} is pending, has no unconsumed wake-up, and is not in the wait queue (it can never be woken)", q, v.idx),
                 );
@@ -552,7 +554,7 @@ pub fn op_to_string(specs: &[OpSpec], op: &Op) -> String {
 }
 
 /// C01 (a)-(c) for the pairing heap of the timer. Entries come from the pre-order walk.
-pub fn check_heap_queue(snap: &Snapshot, views: &[SlotView], run: &mut Run, order_out: &mut Vec<(u8, u8, u8, u8, u64)>) {
+pub fn check_heap_queue(snap: &Snapshot, views: &[SlotView], run: &mut Run, order_out: &mut Vec<(u8, u8, u8, u8, u64)>, lost_wakeup_prop: &'static str) {
     order_out.clear();
     let es: Vec<&EntryRec> = snap.entries.iter().filter(|e| e.queue == 0).collect();
     if es.len() >= (1 << 15) {
@@ -650,7 +652,7 @@ pub fn check_heap_queue(snap: &Snapshot, views: &[SlotView], run: &mut Run, orde
     }
     for v in views {
         if v.pending && !v.woken && !seen.contains(&v.idx) {
-            run.violate("C01", "waiting-but-not-linked", format!("timer: slot {} is pending, has no unconsumed wake-up, and is not in the timer heap", v.idx));
+            run.violate2("C01", lost_wakeup_prop, "waiting-but-not-linked", format!("timer: slot {} is pending, has no unconsumed wake-up, and is not in the timer heap", v.idx));
             return;
         }
     }
